@@ -60,7 +60,7 @@ TrulyPacked(t, lt, ver) ==
             ELSE LET w == DiscrWidth(t) IN
                  \A i \in 1..Len(t.ts) :
                     LET var == t.ts[i]  vl == lt.kids[i] IN
-                    /\ var.s = ""                          \* memory tag = declared value must equal wire tag = index
+                    /\ var.s \in {"", "{}"}                 \* memory tag = declared value must equal wire tag = index
                     /\ var.n <= ver
                     /\ FieldsPacked(var.ts, var.fa, COffs(vl.kids, 1, w), vl.kids, w, lt.sz, ver)
       [] t.k = "lib" /\ t.s = "PhantomData" -> lt.sz = 0
